@@ -196,8 +196,8 @@ class PointTier(textgrid_tier.TextgridTier):
 
         # Determine new min and max timestamps
         timeList = [float(point.time) for point in newEntries]
-        newMin = min(timeList)
-        newMax = max(timeList)
+        newMin = min(timeList, default=self.minTimestamp)
+        newMax = max(timeList, default=self.maxTimestamp)
 
         if newMin > self.minTimestamp:
             newMin = self.minTimestamp
